@@ -67,7 +67,7 @@ func (e *ruleSetEndpoint) readAllBlobs(ctx context.Context, bucket *blob.Bucket)
 	for {
 		obj, err := it.Next(ctx)
 		if err != nil {
-			if errors.Is(err, io.EOF) {
+			if err == io.EOF { //nolint:errorlint // the iterator returns exactly io.EOF at its end; a wrapped EOF is a dropped connection
 				break
 			}
 
